@@ -484,6 +484,25 @@ def thread_discriminants(host):
     import copy
     blocks = host['blocks']
     n = 0
+    # a block that only copies locals and jumps on (the join left by a spliced helper's returns) is duplicated into its
+    # goto-predecessors, so that each of them reaches the switch directly
+    for mi in range(len(blocks)):
+        M = blocks[mi]
+        if M['term'].get('k') != 'goto' or not M['stmts'] or M['term']['target'] == mi:
+            continue
+        if not all(st['k'] == 'assign' and not st['place']['p'] and st['rv'].get('k') == 'use' and st['rv']['op'].get('k') in ('move', 'copy') and not st['rv']['op']['place']['p'] for st in M['stmts']):
+            continue
+        T = blocks[M['term']['target']]
+        if T['term'].get('k') != 'switch' or not T['stmts'] or T['stmts'][-1].get('rv', {}).get('k') != 'discr':
+            continue
+        for xi in range(len(blocks)):
+            X = blocks[xi]
+            if xi != mi and X['term'].get('k') == 'goto' and X['term'].get('target') == mi:
+                X2 = dict(X)
+                X2['stmts'] = list(X['stmts']) + copy.deepcopy(M['stmts'])
+                X2['term'] = dict(X['term'])
+                X2['term']['target'] = M['term']['target']
+                blocks[xi] = X2
     for ti in range(len(blocks)):
         T = blocks[ti]
         t = T['term']
@@ -502,10 +521,14 @@ def thread_discriminants(host):
             if X['term'].get('k') != 'goto' or X['term'].get('target') != ti or xi == ti:
                 continue
             var = None
+            want = L
             for st in reversed(X['stmts']):
-                if st['k'] == 'assign' and st['place']['l'] == L:
+                if st['k'] == 'assign' and st['place']['l'] == want:
                     if not st['place']['p'] and st['rv'].get('k') == 'agg' and st['rv'].get('akind') == 'adt' and st['rv'].get('variant'):
                         var = st['rv']['variant'].get('idx')
+                    elif not st['place']['p'] and st['rv'].get('k') == 'use' and st['rv']['op'].get('k') in ('move', 'copy') and not st['rv']['op']['place']['p']:
+                        want = st['rv']['op']['place']['l']     # a plain copy of another local: look for that one
+                        continue
                     break
             if var is None:
                 continue
